@@ -391,7 +391,14 @@ def rule_rd_eof(cx, rep, port):
             pos = isinstance(t, ast.Call) and dotted(t.func) == 'len' or (isinstance(t, ast.Compare) and isinstance(t.ops[0], (ast.Gt, ast.NotEq)))
             ok = bool(calls) and pos
         rep.decide(ok, 'final line', flush[0] if flush else end, 'a non-empty partial line is processed as the last line', 'the partial line left at end of stream is not processed as a final line')
-        ml = [n for n in walk_no_nested(end) if isinstance(n, ast.If) and any(isinstance(c, ast.Call) and (call_name(c) or '').endswith('is_inside_multiline_record') for c in ast.walk(n.test))]
+        # the flush may live in a method that end-of-stream handling calls unconditionally
+        scopes = [end]
+        it_cls = p.cls('rbql_csv', 'CSVRecordIterator')
+        for st in end.body:
+            if isinstance(st, ast.Expr) and isinstance(st.value, ast.Call) and (call_name(st.value) or '').startswith('self.'):
+                m_ = [x for x in it_cls.body if isinstance(x, ast.FunctionDef) and x.name == call_name(st.value)[5:]]
+                scopes.extend(m_)
+        ml = [n for sc_ in scopes for n in walk_no_nested(sc_) if isinstance(n, ast.If) and any(isinstance(c, ast.Call) and (call_name(c) or '').endswith('is_inside_multiline_record') for c in ast.walk(n.test))]
         ok2 = bool(ml) and any(isinstance(c, ast.Call) and call_name(c) == 'self.process_record_line' for c in ast.walk(ml[0]))
         rep.decide(ok2, 'unfinished multi-line record', ml[0] if ml else end, 'an unfinished quoted record is emitted at end of stream', 'an unfinished multi-line record is dropped at end of stream')
         last = [c for c in walk_no_nested(end) if isinstance(c, ast.Call) and call_name(c) == 'self.try_resolve_next_record']
@@ -751,7 +758,7 @@ def _jschunk_rest(cx, rep, p):
     deq = [m for m in q.body if isinstance(m, ast.FunctionDef) and m.name == 'dequeue'][0]
     rev = [c for c in ast.walk(deq) if isinstance(c, ast.Call) and isinstance(c.func, ast.Attribute) and c.func.attr == 'reverse']
     popc = [c for c in ast.walk(deq) if isinstance(c, ast.Call) and isinstance(c.func, ast.Attribute) and c.func.attr in ('pop', 'shift')]
-    okq = (len(rev) == 1 and len(popc) == 1 and popc[0].func.attr == 'pop') or (not rev and len(popc) == 1 and popc[0].func.attr == 'shift')
+    okq = (len(rev) == 1 and popc and all(c.func.attr == 'pop' and dotted(c.func.value) == 'self.pull_stack' for c in popc)) or (not rev and len(popc) == 1 and popc[0].func.attr == 'shift')
     rep.decide(okq, 'record queue', deq, 'records leave the queue in arrival order', 'the producer/consumer queue does not deliver records in arrival order')
     enq = [m for m in q.body if isinstance(m, ast.FunctionDef) and m.name == 'enqueue'][0]
     pushes = [c for c in ast.walk(enq) if isinstance(c, ast.Call) and isinstance(c.func, ast.Attribute) and c.func.attr in ('push', 'unshift', 'splice')]
@@ -759,6 +766,27 @@ def _jschunk_rest(cx, rep, p):
     if rev:
         oke = targets == ['self.push_stack'] and len(pushes) == 1 and pushes[0].func.attr == 'push'
         rep.decide(oke, 'record queue enqueue', enq, 'new records only ever go onto the push stack', 'enqueue() also writes to {}: a record can overtake older records still waiting on the push stack, so records come out reordered under some chunk arrival timings'.format([t for t in targets if t != 'self.push_stack'] or targets))
-    refill = [n for n in walk_no_nested(deq) if isinstance(n, ast.If) and 'pull_stack' in node_text(n.test)]
-    okr = bool(refill) and (negated(refill[0].test) is not None) and any(isinstance(x, ast.Call) and isinstance(x.func, ast.Attribute) and x.func.attr == 'reverse' for x in ast.walk(refill[0])) if rev else True
-    rep.decide(okr, 'record queue refill', refill[0] if refill else deq, 'the pull stack is refilled (reversed push stack) only when it is empty', 'the pull stack is refilled while it still holds older records')
+    if rev:
+        # the reversal (refill) is reachable only through the "pull stack is empty" outcome of a test on its length
+        gq = cfgmod.CFG(deq)
+        rn = [n for n in gq.nodes if cfgmod.node_contains(n, lambda x: x is rev[0])]
+        empties = []
+        for n in gq.nodes:
+            if n.kind != 'test':
+                continue
+            e, neg = n.ast, False
+            while negated(e) is not None:
+                e, neg = negated(e), not neg
+            if isinstance(e, ast.Call) and dotted(e.func) == 'len' and e.args and dotted(e.args[0]) == 'self.pull_stack':
+                empties.append((n, 'T' if neg else 'F'))
+            elif isinstance(e, ast.Compare) and len(e.ops) == 1 and isinstance(e.left, ast.Call) and dotted(e.left.func) == 'len' and e.left.args and dotted(e.left.args[0]) == 'self.pull_stack' and isinstance(e.comparators[0], ast.Constant) and e.comparators[0].value == 0:
+                lab = {ast.Eq: 'T', ast.NotEq: 'F', ast.Gt: 'F', ast.LtE: 'T'}.get(type(e.ops[0]))
+                if lab:
+                    empties.append((n, lab if not neg else ('F' if lab == 'T' else 'T')))
+        if not rn or not empties:
+            rep.undecided('record queue refill', deq, 'emptiness test of the pull stack / refill not recognised')
+        else:
+            allowed = {(id(n), lab) for n, lab in empties}
+            tests = {id(n) for n, _ in empties}
+            other_way = gq.exists_path(gq.entry, lambda n: n is rn[0], edge_ok=lambda a, b, lab: not (id(a) in tests and (id(a), lab) in allowed))
+            rep.decide(not other_way, 'record queue refill', rev[0], 'the pull stack is refilled (reversed push stack) only when it is empty', 'the pull stack is refilled while it still holds older records')
